@@ -61,6 +61,12 @@ func (f *Frame) step(b *ssa.BasicBlock, ins ssa.Instruction, st *State) bool {
 			a := &Addr{Kind: aCell, Region: u.cellRegion(pt), Ref: ref, Sort: s}
 			f.store(st, a, te.zero(pt))
 			f.env[x] = Value{T: ref, Addr: a, Ty: x.Type()}
+			if !allocEscapes(x) {
+				if f.localCells == nil {
+					f.localCells = map[string][]Term{}
+				}
+				f.localCells[a.Region] = append(f.localCells[a.Region], ref)
+			}
 		}
 
 	case *ssa.BinOp:
@@ -398,8 +404,10 @@ func (f *Frame) binop(x *ssa.BinOp, st *State) Value {
 		switch x.Op {
 		case token.ADD:
 			u.sc.declareFun("strcat", []string{SStr, SStr}, SStr)
-			u.axiomOnce("strcat", "(forall ((a Str) (b Str)) (! (= (strlen (strcat a b)) (bvadd (strlen a) (strlen b))) :pattern ((strcat a b))))")
-			return res(Term{fmt.Sprintf("(strcat %s %s)", ta.S, tb.S), SStr})
+			cat := Term{fmt.Sprintf("(strcat %s %s)", ta.S, tb.S), SStr}
+			// ground length fact for this concatenation (no quantified axiom)
+			u.assume(st.reach, mkEq(mk(bvSort(64), "strlen", cat), mk(bvSort(64), "bvadd", mk(bvSort(64), "strlen", ta), mk(bvSort(64), "strlen", tb))))
+			return res(cat)
 		case token.LSS, token.LEQ, token.GTR, token.GEQ:
 			u.sc.declareFun("strlt", []string{SStr, SStr}, SBool)
 			return Value{T: u.sc.fresh("strcmp", SBool), Ty: x.Type()}
@@ -572,9 +580,11 @@ func (f *Frame) sliceOp(x *ssa.Slice, st *State) Value {
 		}
 		f.safety("slice", x, "string slice bounds out of range", st, mkAnd(mk(SBool, "bvsle", bv64(0), lo), mk(SBool, "bvsle", lo, hi), mk(SBool, "bvsle", hi, ln)))
 		u.sc.declareFun("substr", []string{SStr, bvSort(64), bvSort(64)}, SStr)
-		u.axiomOnce("substr", "(forall ((s Str) (a (_ BitVec 64)) (b (_ BitVec 64))) (! (=> (and (bvsle (_ bv0 64) a) (bvsle a b) (bvsle b (strlen s))) (= (strlen (substr s a b)) (bvsub b a))) :pattern ((substr s a b))))")
-		u.axiomOnce("substr2", "(forall ((s Str) (a (_ BitVec 64)) (b (_ BitVec 64)) (i (_ BitVec 64))) (! (=> (and (bvsle (_ bv0 64) a) (bvsle a b) (bvsle b (strlen s)) (bvsle (_ bv0 64) i) (bvslt i (bvsub b a))) (= (strat (substr s a b) i) (strat s (bvadd a i)))) :pattern ((strat (substr s a b) i))))")
-		return Value{T: u.freshDef(x.Name(), Term{fmt.Sprintf("(substr %s %s %s)", sv.S, lo.S, hi.S), SStr}), Ty: x.Type()}
+		sub := u.freshDef(x.Name(), Term{fmt.Sprintf("(substr %s %s %s)", sv.S, lo.S, hi.S), SStr})
+		// facts about this substring only (ground length, one-variable content axiom)
+		u.assume(st.reach, mkEq(mk(bvSort(64), "strlen", sub), mk(bvSort(64), "bvsub", hi, lo)))
+		u.assume(st.reach, Term{fmt.Sprintf("(forall ((i (_ BitVec 64))) (! (=> (and (bvsle (_ bv0 64) i) (bvslt i (bvsub %s %s))) (= (strat %s i) (strat %s (bvadd %s i)))) :pattern ((strat %s i))))", hi.S, lo.S, sub.S, sv.S, lo.S, sub.S), SBool})
+		return Value{T: sub, Ty: x.Type()}
 	}
 	f.errorf("unsupported slice of %s", x.X.Type())
 	return Value{T: u.sc.fresh("slice", u.te.sortOf(x.Type())), Ty: x.Type()}
@@ -653,4 +663,46 @@ func (f *Frame) explicitPanic(x *ssa.Panic, st *State) {
 		return
 	}
 	f.u.oblige("nopanic", f.oname("nopanic/panic", x), "explicit panic reachable", f.u.eng.pos(x.Pos()), st.reach, tFalse)
+}
+
+// allocEscapes reports whether the address of a local variable cell may become
+// known to code outside the function (passed to a call, stored, boxed, captured by
+// a closure that is not only deferred/called in place).
+func allocEscapes(a *ssa.Alloc) bool {
+	refs := a.Referrers()
+	if refs == nil {
+		return true
+	}
+	for _, r := range *refs {
+		switch x := r.(type) {
+		case *ssa.Store:
+			if x.Val == a {
+				return true
+			}
+		case *ssa.UnOp, *ssa.DebugRef:
+		case *ssa.MakeClosure:
+			crefs := x.Referrers()
+			if crefs == nil {
+				return true
+			}
+			for _, cr := range *crefs {
+				switch y := cr.(type) {
+				case *ssa.Defer:
+					if y.Call.Value != x {
+						return true
+					}
+				case *ssa.Call:
+					if y.Call.Value != x {
+						return true
+					}
+				case *ssa.DebugRef:
+				default:
+					return true
+				}
+			}
+		default:
+			return true
+		}
+	}
+	return false
 }
